@@ -128,13 +128,13 @@ var c16IDClasses = []c16IDClass{
 
 // c16Cfg is one server configuration.
 type c16Cfg struct {
-	Levels   map[string]string `json:"levels"`             // flag -> "small" | "0" (absent = default)
-	TurnMode string            `json:"turn_mode"`          // "off" | "on" | "servers-only" | "secret-only"
-	Turn     *c16Turn          `json:"-"`                  // spelling when TurnMode is on / servers-only
-	Spelling string            `json:"turn_spelling"`      // class of Turn
-	Kind     string            `json:"kind"`               // single | pair | row | turn-matrix
+	Levels   map[string]string `json:"levels"`               // flag -> "small" | "0" (absent = default)
+	TurnMode string            `json:"turn_mode"`            // "off" | "on" | "servers-only" | "secret-only"
+	Turn     *c16Turn          `json:"-"`                    // spelling when TurnMode is on / servers-only
+	Spelling string            `json:"turn_spelling"`        // class of Turn
+	Kind     string            `json:"kind"`                 // single | pair | row | turn-matrix
 	IDs      []int             `json:"id_classes,omitempty"` // indexes into c16IDClasses (turn-matrix)
-	Factors  []string          `json:"factors"`            // non-default factors "name=class", sorted
+	Factors  []string          `json:"factors"`              // non-default factors "name=class", sorted
 }
 
 func (c *c16Cfg) flagValue(name string) (string, bool) {
@@ -554,6 +554,7 @@ func (rn *c16Run) createSession(c *c16Cfg, srv *vk.Serv, obs map[string]any) (c1
 	el := time.Since(t0)
 	rn.fn("clienthttp.CreateSession")
 	if err == nil {
+		e.R.Eval()
 		e.R.Distinct(c.key() + "|CreateSession")
 		obs["create_session"] = map[string]any{"ok": true, "expires_in_s": int(time.Until(exp).Seconds())}
 		if sid == "" || code == "" {
@@ -633,6 +634,7 @@ func (rn *c16Run) connectRole(c *c16Cfg, srv *vk.Serv, s c16Sess, peerID, role s
 		cr.close()
 		return nil, t0
 	}
+	rn.e.R.Eval()
 	rn.e.R.Distinct(c.key() + "|Dial:" + role + "|id:" + idClass)
 	obs[step] = map[string]any{"ok": true}
 	return cr, t0
@@ -671,6 +673,7 @@ func (rn *c16Run) exchange(c *c16Cfg, host, recv *c16Role, tConn time.Time, obs 
 			return
 		}
 	}
+	rn.e.R.Eval()
 	rn.e.R.Distinct(c.key() + "|exchange")
 	obs["exchange"] = "ok"
 }
@@ -765,6 +768,7 @@ func (rn *c16Run) checkTurn(c *c16Cfg, cr *c16Role, idClass string, tBefore time
 			rn.violate(c, keyStep, "client-side parse of the minted TURN credentials differs from what the server intended: "+strings.Join(bad, "; "), det)
 			continue
 		}
+		e.R.Eval()
 		e.R.Distinct(c.key() + "|parseTurnServer|" + c.Turn.Class + "|id:" + idClass + "|" + cr.role)
 		e.R.Count("turn_entries_checked")
 	}
@@ -803,7 +807,6 @@ func c16HexID(r *vk.Rng) string { return fmt.Sprintf("%010x", r.U64()&0xffffffff
 // runCfg runs one configuration: start the server, run the session scenario(s), stop the server.
 func (rn *c16Run) runCfg(idx int, c *c16Cfg, r *vk.Rng, thruHost bool) {
 	e := rn.e
-	e.R.Eval()
 	obs := map[string]any{"config": c.key(), "kind": c.Kind, "args": strings.Join(c.args(), " ")}
 	extra := []string{}
 	if c.Kind == "turn-matrix" {
@@ -967,6 +970,7 @@ func (rn *c16Run) thruHost(c *c16Cfg, idx int, obs map[string]any) {
 	}
 	switch verdict {
 	case "ok":
+		e.R.Eval()
 		e.R.Distinct(c.key() + "|thru-host")
 		e.R.Count("thru_host_join_code_seen")
 		obs["thru_host"] = "join code printed"
